@@ -43,11 +43,20 @@ def rule_options_builder(col, facts, crate):
     for bb, v, sp in sites:
         by.setdefault(v, []).append((bb, sp))
 
-    def need(variant, desc, pred):
+    def need(variant, desc, pred, field=None):
         ok = False
+        soft = False
         for bb, sp in by.get(variant, []):
-            if alt_has(reach_alternatives(f, bb), pred):
+            alts = reach_alternatives(f, bb)
+            if alt_has(alts, pred):
                 ok = True
+            elif field is not None and alt_has(alts, lambda e, p: mentions_field(e, field) or any(mentions_field(x, field) for c_ in expr_calls(e) for x in c_[2])):
+                soft = True
+        if not ok and soft:
+            # the error is still produced under a test of that field, written in a form this rule does not read
+            # (`match self.nan_string { Some(s) => .. s.first() .. }`, a shared helper): not decided
+            col.assumed("not-applied", "MPT-ascii:%s:%s:%s" % (crate, variant, desc), "Error::%s is returned under a test of the field in a form the rule does not read: `%s` not decided" % (variant, desc), f.loc())
+            return
         col.check(R, "%s:%s:%s" % (crate, variant, desc), ok,
                   "OptionsBuilder::build has no path returning Error::%s when %s" % (variant, desc), f.loc())
 
@@ -62,12 +71,12 @@ def rule_options_builder(col, facts, crate):
     for fld, nm, letters in specials:
         fi = field_index(facts, adt, fld)
         need("Invalid%sString" % nm, "%s contains a non-letter" % fld,
-             lambda e, p, fi=fi: has_call(e, "ascii::is_valid_letter_slice") and mentions_field(e, fi) and p is False)
+             lambda e, p, fi=fi: has_call(e, "ascii::is_valid_letter_slice") and mentions_field(e, fi) and p is False, fi)
         need("%sStringTooLong" % nm, "%s is longer than MAX_SPECIAL_STRING_LENGTH" % fld,
              lambda e, p, fi=fi: strip_casts(e)[0] == "bin" and strip_casts(e)[1] in ("Gt", "Lt") and mentions_field(e, fi)
-             and "MAX_SPECIAL_STRING_LENGTH" in [last_seg(k[1]) for k in expr_consts(e)] and p is True)
+             and "MAX_SPECIAL_STRING_LENGTH" in [last_seg(k[1]) for k in expr_consts(e)] and p is True, fi)
         need("Invalid%sString" % nm, "%s is empty" % fld,
-             lambda e, p, fi=fi: mentions_field(e, fi) and (("Lt" in str(e) and p is False) or (has_call(e, "is_empty") and p is True)))
+             lambda e, p, fi=fi: mentions_field(e, fi) and (("Lt" in str(e) and p is False) or (has_call(e, "is_empty") and p is True)), fi)
         # first letter: a switch on <str>[0] with exactly the two letters; the fall-through sets the
         # matches! flag false and that flag's false edge reaches the error
         ok = False
@@ -81,6 +90,9 @@ def rule_options_builder(col, facts, crate):
                     for bb, sp in by.get("Invalid%sString" % nm, []):
                         if alt_has(reach_alternatives(f, bb), lambda e2, p2: e2[0] == "var" and e2[1] in flags and p2 is False):
                             ok = True
+        if not ok and any(alt_has(reach_alternatives(f, bb), lambda e, p, fi=fi: mentions_field(e, fi) or any(mentions_field(x, fi) for c_ in expr_calls(e) for x in c_[2])) for bb, sp in by.get("Invalid%sString" % nm, [])):
+            col.assumed("not-applied", "MPT-ascii:%s:Invalid%sString:first-letter" % (crate, nm), "Error::Invalid%sString is returned under a test of %s in a form the rule does not read: the first-letter test is not decided" % (nm, fld), f.loc())
+            continue
         col.check(R, "%s:Invalid%sString:first-letter" % (crate, nm), ok,
                   "no `matches!(%s[0], %s)` test whose failure returns Error::Invalid%sString" % (fld, "|".join(chr(c) for c in letters), nm), f.loc())
     # the Ok return is the unchecked build
@@ -132,8 +144,33 @@ def rule_options_is_valid(col, facts, crate):
              ("inf", lambda e, p: has_call(e, "::inf_str_is_valid") and p is False)]
     if crate == "lexical_parse_float":
         wants.append(("infinity", lambda e, p: has_call(e, "::infinity_string_is_valid") and p is False))
+    # second reading (one `a && b && ..` expression instead of an if-ladder): on every path on which the check is
+    # found failed, the function returns false - and there is such a path
+    from rules.core import enum_paths, bool_resolved_atoms, resolve_env
+    rets = {i for i, b in enumerate(f.blocks) if f.live(i) and b["t"]["k"] == "return"}
+    path_list = []
+    try:
+        for _t, atoms0, env in enum_paths(f, 0, rets, want_env=True):
+            atoms, feasible = bool_resolved_atoms(f, atoms0, env)
+            if not feasible:
+                continue
+            r = env.get(0)
+            val = None
+            if r is not None:
+                val = r[1] if r[0] == "const" else strip_casts(resolve_env(r[1], env))
+                if isinstance(val, tuple):
+                    # (the last operand of an `&&` chain is returned as it is: the result *is* that check)
+                    val = val[1] if val[0] == "k" else ("expr", val)
+            path_list.append((atoms, val))
+    except AnchorMissing:
+        path_list = []
+
+    def by_paths(pred):
+        hit = [val for atoms, val in path_list if any(pred(e, p) for e, p in atoms)]
+        direct = [val for atoms, val in path_list if isinstance(val, tuple) and val[0] == "expr" and pred(val[1], False)]
+        return (bool(hit) or bool(direct)) and all(v is False or v == 0 for v in hit)
     for nm, pred in wants:
-        ok = any(alt_has(reach_alternatives(f, bb), pred) for bb in falses)
+        ok = any(alt_has(reach_alternatives(f, bb), pred) for bb in falses) or by_paths(pred)
         col.check(R, "%s:is_valid:%s" % (crate, nm), ok, "OptionsBuilder::is_valid does not return false when the %s check fails" % nm, f.loc())
     g = facts.fn("%s::options::Options::is_valid" % crate)
     calls = [callee_name(c) for _b, c, _a, _d, _t in g.calls()]
